@@ -107,6 +107,14 @@ structure GSt where
   used      : Bool := false       -- !mUsedArgument.empty()
   deriving DecidableEq, Repr, Inhabited
 
+/-- one use of an argument: its index in `cfg.args`, the value (empty = none) and whether it was
+    identified by a key (`handleIdentifiedArg`) or is a free value of the last multi-value argument -/
+structure Use where
+  arg   : Nat
+  val   : Word
+  ident : Bool
+  deriving DecidableEq, Repr, Inhabited
+
 structure HState where
   args     : List ArgSt
   pending  : List (Key × CType)                -- ConstraintContainer::mConstraints (origin text not modelled)
@@ -114,8 +122,8 @@ structure HState where
   lastArg  : Option Nat := none                -- mpLastArg (index into cfg.args)
   inverted : Bool := false                     -- mInverted
   fromSrc  : Bool := false                     -- mReadMode != commandLine
-  /-- ghost: (argument index, value — empty for "no value") in the order `assignValue` succeeded -/
-  uses     : List (Nat × Word) := []
+  /-- ghost: the uses in the order `assignValue` succeeded (no counterpart in the C++ object) -/
+  uses     : List Use := []
   deriving Repr, Inhabited
 
 def defaultDest : Kind → DVal
@@ -328,21 +336,21 @@ def checkGlobals : List GDef → List GSt → Res Unit
 def Cfg.table (cfg : Cfg) : List (Key × ArgDef) := cfg.args.map (fun d => (d.key, d))
 
 /-- `TypedArgBase::assignValue( ignore_cardinality, value, inverted)` on argument `i` -/
-def assignValue (h : HState) (i : Nat) (d : ArgDef) (value : Word) : Res HState := do
+def assignValue (h : HState) (i : Nat) (d : ArgDef) (value : Word) (ident : Bool := false) : Res HState := do
   throwIf d.deprecated .runtime_error
   let st := h.args.getD i default
   let cnt ← countValue h.fromSrc d.card st.cnt
   throwIf h.inverted .runtime_error          -- mAllowsInverting is never set in the fragment
   let st' ← assignDest d { st with cnt := cnt } value
   pure { h with args := h.args.set i st', pending := activateConstraints d.constraints h.pending,
-                uses := h.uses ++ [(i, value)] }
+                uses := h.uses ++ [{ arg := i, val := value, ident := ident }] }
 
 /-- `Handler::handleIdentifiedArg( hdl, key, value)`.  `ident` is the key handed to the
     constraint container (after the fix: the argument's own key) -/
 def handleIdentifiedArg (cfg : Cfg) (h : HState) (i : Nat) (d : ArgDef) (value : Word) : Res HState := do
   let pending ← pendingIdentified d.key h.pending
   let globals ← executeGlobals cfg.globals h.globals d.key
-  let h' ← assignValue { h with pending := pending, globals := globals } i d value
+  let h' ← assignValue { h with pending := pending, globals := globals } i d value true
   pure { h' with inverted := false }
 
 inductive ArgResult where
